@@ -168,8 +168,8 @@ def render_enum(T):
     return "%s %s : %s { %s };" % ("flag" if T[4] else "enum", T[1], type_text(T[2]), members)
 
 
-def render(T, extra=""):
-    """Definition text declaring every named type T depends on, then T itself."""
+def render_parts(T, extra=""):
+    """Definition texts, in dependency order: every named type T depends on, then T itself (the last part)."""
     named = []
     collect_named(T, named)
     parts = [extra] if extra else []
@@ -178,7 +178,12 @@ def render(T, extra=""):
             parts.append(render_enum(N))
         else:
             parts.append("%s %s {\n%s\n};" % (N[0], N[1], render_fields(N[2])))
-    return "\n".join(parts) + "\n"
+    return parts
+
+
+def render(T, extra=""):
+    """Definition text declaring every named type T depends on, then T itself."""
+    return "\n".join(render_parts(T, extra)) + "\n"
 
 
 # ------------------------------------------------------------------------------------------ layout
